@@ -74,14 +74,15 @@ type Ctx struct {
 	curFile      *os.File
 	curMap       []byte
 
-	res      Result
-	classes  map[string]struct{}
-	viol     map[string]*Viol
-	maxSamp  int
-	curS     string
-	curI     int
-	caseSeq  uint64 // bumped at the start of each guarded call (watchdog)
-	curInput atomic.Value
+	res          Result
+	classes      map[string]struct{}
+	viol         map[string]*Viol
+	maxSamp      int
+	curS         string
+	curI         int
+	caseSeq      uint64 // bumped at the start of each guarded call (watchdog)
+	externalWait int32
+	curInput     atomic.Value
 }
 
 // maxClasses caps the class signatures one worker keeps in memory.
@@ -333,6 +334,8 @@ func (c *Ctx) Watchdog(heapLimit uint64, cpuLimit time.Duration) {
 		samples := []metrics.Sample{{Name: "/memory/classes/heap/objects:bytes"}}
 		var lastSeq uint64
 		var cpuAtSeq time.Duration
+		var seqSince, lastStack time.Time
+		blockedSamples := 0
 		for {
 			time.Sleep(25 * time.Millisecond)
 			metrics.Read(samples)
@@ -341,8 +344,23 @@ func (c *Ctx) Watchdog(heapLimit uint64, cpuLimit time.Duration) {
 			cpu := processCPU()
 			if seq != lastSeq {
 				lastSeq, cpuAtSeq = seq, cpu
+				seqSince, blockedSamples = time.Now(), 0
 			}
 			reason := ""
+			// a call that neither returns nor burns CPU: the worker is single-goroutine, so a main goroutine
+			// parked on a lock / channel can never be woken. Decided on the goroutine state seen in repeated
+			// stack samples, not on elapsed time alone.
+			if atomic.LoadInt32(&c.externalWait) == 0 && time.Since(seqSince) > 3*time.Second && time.Since(lastStack) > time.Second {
+				lastStack = time.Now()
+				if st := mainGoroutineState(); parked[st] {
+					blockedSamples++
+					if blockedSamples >= 8 {
+						reason = "blocked-forever (" + st + ")"
+					}
+				} else {
+					blockedSamples = 0
+				}
+			}
 			if heap > heapLimit {
 				reason = "heap-ceiling"
 			} else if cpu-cpuAtSeq > cpuLimit {
@@ -360,6 +378,35 @@ func (c *Ctx) Watchdog(heapLimit uint64, cpuLimit time.Duration) {
 			}
 		}
 	}()
+}
+
+var parked = map[string]bool{"semacquire": true, "sync.Mutex.Lock": true, "sync.RWMutex.Lock": true, "sync.RWMutex.RLock": true,
+	"chan receive": true, "chan send": true, "select": true, "select (no cases)": true, "sync.Cond.Wait": true, "sync.WaitGroup.Wait": true,
+	"chan receive (nil chan)": true, "chan send (nil chan)": true}
+
+// mainGoroutineState returns the wait state of goroutine 1 as the runtime prints it.
+func mainGoroutineState() string {
+	buf := make([]byte, 1<<16)
+	n := runtime.Stack(buf, true)
+	s := string(buf[:n])
+	i := strings.Index(s, "goroutine 1 [")
+	if i < 0 {
+		return ""
+	}
+	s = s[i+len("goroutine 1 ["):]
+	j := strings.IndexAny(s, ",]")
+	if j < 0 {
+		return ""
+	}
+	return s[:j]
+}
+
+// ExternalWait brackets a section in which the main goroutine legitimately waits for something outside
+// the library (a child process): the blocked-forever detector is off meanwhile.
+func (c *Ctx) ExternalWait(f func()) {
+	atomic.AddInt32(&c.externalWait, 1)
+	defer atomic.AddInt32(&c.externalWait, -1)
+	f()
 }
 
 func processCPU() time.Duration {
